@@ -209,4 +209,63 @@ def r9_6(run):
     run.floor(10)
 
 
-RULES = [("R9.1", r9_1), ("R9.2", r9_2), ("R9.3", r9_3), ("R9.4", r9_4), ("R9.5", r9_5), ("R9.6", r9_6)]
+def r9_7(run):
+    """end symmetry of the pit construction: the temperature a branch carries for its to side before any thermal
+    calculation (TOUTINIT) is the initial temperature of the node stored in TO_NODE (the from side reads TINIT of FROM_NODE in
+    the kernels), so swapping from/to mirrors the pair of end temperatures the fluid properties are evaluated at"""
+    from ..arrnf import ANF, FULL, base_of, contains, expect, key as tkey, match, show as tshow, walk
+    ix = run.index
+    n = 0
+    for c in ix.all_classes():
+        m = c.methods.get("create_pit_branch_entries")
+        if not m:
+            continue
+        r = ANF(ix, m, options={"transient": False}).run()
+        st = r.stores()
+        TO, TOUT, TIN = expect(ix, m, "TO_NODE"), expect(ix, m, "TOUTINIT"), None
+        touts = [s_ for s_ in st if len(s_.index) == 2 and s_.index[1][0] == "k" and s_.index[1][1] == "idx_branch.TOUTINIT"]
+        if not touts:
+            continue
+        run.analysed(m)
+        for s_ in touts:
+            root = tkey(base_of(s_.base))
+            tos = [t for t in st if tkey(base_of(t.base)) == root and len(t.index) == 2 and t.index[1][0] == "k"
+                   and t.index[1][1] == "idx_branch.TO_NODE" and t.index[0] == FULL]
+            where = run.where(m, s_.node)
+            v = s_.value
+            reads = [x for x in walk(v) if x[0] == "idx" and len(x[2]) == 2 and x[2][1][0] == "k" and x[2][1][1] == "idx_node.TINIT"]
+            n += 1
+            key0 = "toutinit|%s|%s" % (c.name, tshow(s_.index[0])[:40])
+            if not reads:
+                # a prescribed outlet temperature (return / flow temperature of the element's table): not an end-node value
+                run.ob(key0 + "|prescribed", not any(x[0] == "k" and x[1].startswith("idx_node.") for x in walk(v)),
+                       "TOUTINIT of %s rows is a prescribed element temperature (no node value involved)" % c.name, where, detail=tshow(v)[:150])
+                continue
+            if not tos:
+                # TO_NODE is written by a base class: the selector must be computed from the to column of from_to_node_cols()
+                def ends(t):
+                    out = set()
+                    for x in walk(t):
+                        if x[0] in ("idx", "proj") and x[1][0] == "call" and x[1][1][0] == "attr" and x[1][1][2] == "from_to_node_cols":
+                            k_ = x[2][0][1] if x[0] == "idx" else x[2]
+                            out.add(k_)
+                    return out
+                e_ = ends(reads[0][2][0]) if len(reads) == 1 else set()
+                if not e_:
+                    raise AnalysisError("%s.create_pit_branch_entries: cannot tell which end TOUTINIT is read from" % c.name)
+                run.ob(key0 + "|temperature-of-to-node", e_ == {1} and tkey(v) == tkey(reads[0]),
+                       "TOUTINIT of %s rows = TINIT of the node of the element's to column" % c.name, where,
+                       detail="reads node rows %s" % tshow(reads[0][2][0])[:160])
+                continue
+            tov = tos[-1].value
+            rows = s_.index[0]
+            want_sel = tov if rows == FULL else ("idx", tov, (rows,))
+            ok = len(reads) == 1 and tkey(v) == tkey(reads[0]) and tkey(reads[0][2][0]) == tkey(want_sel)
+            run.ob(key0 + "|temperature-of-to-node", ok,
+                   "TOUTINIT of %s rows = TINIT of the node stored in TO_NODE for the same rows" % c.name, where,
+                   detail="reads node rows %s ; TO_NODE = %s" % (tshow(reads[0][2][0])[:120], tshow(want_sel)[:120]))
+    run.ob("toutinit-writers-found", n >= 4, "TOUTINIT writers analysed: %d" % n, "component_models")
+    run.floor(5)
+
+
+RULES = [("R9.1", r9_1), ("R9.2", r9_2), ("R9.3", r9_3), ("R9.4", r9_4), ("R9.5", r9_5), ("R9.6", r9_6), ("R9.7", r9_7)]
